@@ -225,7 +225,7 @@ def gen_history(rng, nops):
             c.kids[k] = v
             if v is not None:
                 H[hv][1] = False  # reference transferred; the handle is now a borrowed pointer
-            emit("OADD %d x%s %d 0" % (hc, k.hex(), hv), ret=0, dels=dead)
+            emit("OADD %d x%s %d %d" % (hc, k.hex(), hv, 4 if rng.random() < 0.2 else 0), ret=0, dels=dead)  # 4 = JSON_C_OBJECT_ADD_CONSTANT_KEY (interned key)
         elif r < 0.70:
             cs = [h for h in alive_handles("obj") if H[h][0].kids]
             if not cs:
